@@ -13,10 +13,42 @@ def sliceOfI (s : Bytes) (lo hi : Int) : Except Fault Bytes :=
   if 0 ≤ lo ∧ lo ≤ hi ∧ hi ≤ (s.length : Int) then .ok ((s.take hi.toNat).drop lo.toNat)
   else .error .slice
 
+/-- Go `runes[i]` on a `[]rune` (code points as `Nat`) with an `int` index -/
+def getAtIR (rs : List Nat) (i : Int) : Except Fault Nat :=
+  if i < 0 then .error .index else
+  match rs[i.toNat]? with
+  | some r => .ok r
+  | none => .error .index
+
+/-- the functions of package `unicode` that builtin.go calls: parameters of the models (their
+tables are not modelled); theorems state the facts they need about them as hypotheses -/
+structure UnicodeFns where
+  isLower : Nat → Bool
+  isUpper : Nat → Bool
+  isDigit : Nat → Bool
+  isLetter : Nat → Bool
+  isSpace : Nat → Bool
+  toUpper : Nat → Nat
+  toLower : Nat → Nat
+
 namespace GoExpr
 
 def gInt (k : Int) : Except Fault Int := .ok k
 def gByte (k : UInt8) : Except Fault UInt8 := .ok k
+def gBool (b : Bool) : Except Fault Bool := .ok b
+
+/-- `runes[e]` -/
+def gIdxR (runes : List Nat) (e : Except Fault Int) : Except Fault Nat :=
+  match e with
+  | .ok k => getAtIR runes k
+  | .error f => .error f
+
+/-- `unicode.F(e)` -/
+def gU (f : Nat → Bool) (e : Except Fault Nat) : Except Fault Bool :=
+  match e with
+  | .ok r => .ok (f r)
+  | .error f => .error f
+
 def gLen (data : Bytes) : Except Fault Int := .ok (data.length : Int)
 
 /-- `data[e]` -/
